@@ -229,7 +229,7 @@ def instantiate(matcher):
     text, n = re.subn(r"\$\(\s*\$\w+\s*:\s*ident\s*:\s*\$\w+\s*:\s*ty\s*\)\s*,\s*\*", PARAMS, text)
     if n != 1:
         return None, "no `$($name:ident: $ty:ty),*` parameter list"
-    text, n = re.subn(r"\$\(\s*\$\w+\s*:\s*tt\s*\)\s*\*", "ASSIGN_SEQ.store(tick(), SeqCst); ASSIGN_EVALS.fetch_add(1, SeqCst); *out = a + ASSIGN_K.load(SeqCst);", text)
+    text, n = re.subn(r"\$\(\s*\$\w+\s*:\s*tt\s*\)\s*\*", "ASSIGN_SEQ.store(tick(), SeqCst); ASSIGN_EVALS.fetch_add(1, SeqCst); *out = a + ASSIGN_K.load(SeqCst); let a = a.wrapping_add(777_000); let _ = a;", text)
     opts["assign"] = n > 0
 
     def sub_frag(mo):
@@ -294,6 +294,13 @@ fn tick() -> u64 {{ TICK.fetch_add(1, SeqCst) }}
     {orig_ret}
 }}
 
+// a sibling original that differs from `orig` only in ABI: the arm's fake must be refused on it
+#[inline(never)]
+{other_quals} fn orig_other_abi(a: i64, out: &mut i64){ret_decl} {{
+    *out = std::hint::black_box(-2);
+    {orig_ret}
+}}
+
 // the arm's own matcher is the template of a well-typed use
 fn make_fake() -> (FuncPtr, CallCountVerifier) {{
     injectorpp::fake!({invocation})
@@ -346,6 +353,13 @@ fn main() {{
     let mut out2: i64 = -99;
     let back = {after_expr};
     println!("AFTER {{back}} out {{out2}}");
+    // type check across ABIs: same parameters and result, different ABI => must be refused
+    let r = std::panic::catch_unwind(|| {{
+        let mut inj = InjectorPP::new();
+        inj.when_called(injectorpp::func!(orig_other_abi, {other_quals} fn({param_tys}){ret_decl})).will_execute(make_fake());
+        std::mem::forget(inj);
+    }});
+    println!("XABI {{}}", if r.is_err() {{ "refused" }} else {{ "accepted" }});
 }}
 '''
 
@@ -363,7 +377,8 @@ def render_arm(idx, arm, invocation, opts):
     if unsafe:
         after = "unsafe { " + after + " }"
     after_expr = "{ " + after + "; 0i64 }" if unit else after
-    return ARM_TEMPLATE.format(idx=idx, line=arm["line"], quals=quals, ret_decl=ret_decl, orig_ret="" if unit else "std::hint::black_box(-7)", invocation=invocation, param_tys=PARAM_TYS, call_expr=call_expr, after_expr=after_expr)
+    other = {"": 'unsafe extern "C"', "unsafe": 'unsafe extern "C"', 'unsafe extern "C"': 'unsafe extern "system"', 'unsafe extern "system"': 'unsafe extern "C"'}.get(quals, 'unsafe extern "C"')
+    return ARM_TEMPLATE.format(idx=idx, line=arm["line"], quals=quals, other_quals=other, ret_decl=ret_decl, orig_ret="" if unit else "std::hint::black_box(-7)", invocation=invocation, param_tys=PARAM_TYS, call_expr=call_expr, after_expr=after_expr)
 
 
 # --------------------------------------------------------------------------------------------
@@ -534,6 +549,9 @@ def model_and_compare(opts, times, calls, rc, out, err, unwinds):
     want_after = "AFTER 0 out -1" if opts["unit"] else "AFTER -7 out -1"
     if after != want_after:
         return ("original-not-back", f"after the scope the original gave `{after}`, expected `{want_after}`"), ex
+    xabi = out[li + 2] if li + 2 < len(out) else ""
+    if xabi != "XABI refused":
+        return ("fake-accepted-on-target-of-other-abi", f"the arm's fake (declared {opts['quals'] or 'fn'}) was installed on a target that differs only in ABI: `{xabi}`"), ex
     return None, ex
 
 
@@ -567,7 +585,7 @@ def cmd_c08(out_path, prop="C08"):
         rec.inconclusive.append(f"only {len(bins)} of {len(arms)} arms could be instantiated")
         return rec.finish(out_path)
     t0 = time.time()
-    res, lib_errors, stderr_tail = build_crate("c08" if prop == "C08" else "c06arms", bins)
+    res, lib_errors, stderr_tail = build_crate({"C08": "c08", "C06": "c06arms"}.get(prop, "arms" + prop.lower()), bins)
     rec.count("build_s", int(time.time() - t0))
     if lib_errors:
         rec.inconclusive.append(f"the library itself does not compile: {lib_errors[0]['message']}")
